@@ -38,7 +38,8 @@ SCALAR_POOL = [
 ]
 # enum members that compare equal to plain ints / strs: only where == is not what is being compared (C07, C09)
 MIXED_POOL = [['enum', 'lv_universe', 'Level', 'ONE'], ['enum', 'lv_universe', 'Level', 'TWO'], ['enum', 'lv_universe', 'Opt', 'ADAM']]
-BAD_POOL = [['bad', 'set'], ['bad', 'bytes'], ['bad', 'object'], ['bad', 'complex'], ['bad', 'type'], ['bad', 'faketask']]
+BAD_POOL = [['bad', 'set'], ['bad', 'bytes'], ['bad', 'object'], ['bad', 'complex'], ['bad', 'type'], ['bad', 'faketask'],
+            ['bad', 'fraction'], ['bad', 'decimal'], ['bad', 'bytearray'], ['bad', 'range'], ['bad', 'frozenset']]
 
 
 class FakeTask:
@@ -112,7 +113,11 @@ def build(spec):
         cls = getattr(MODULES[spec[1]], spec[2])
         return cls(**{f: build(v) for f, v in spec[3]})
     if k == 'bad':
-        return {'set': set(), 'bytes': b'x', 'object': object(), 'complex': 1j, 'type': int, 'faketask': FakeTask()}[spec[1]]
+        import decimal
+        import fractions
+        return {'set': set(), 'bytes': b'x', 'object': object(), 'complex': 1j, 'type': int, 'faketask': FakeTask(),
+                'fraction': fractions.Fraction(1, 3), 'decimal': decimal.Decimal('1.5'), 'bytearray': bytearray(b'x'),
+                'range': range(3), 'frozenset': frozenset([1])}[spec[1]]
     raise ValueError(spec)
 
 
